@@ -951,6 +951,14 @@ class Interp:
         args = tuple(self.eval(a, frame, st) for a in n.args)
         kwargs = tuple((k.arg, self.eval(k.value, frame, st)) if k.arg else ("**", self.eval(k.value, frame, st)) for k in n.keywords)
         simple = not any(a[0] == "star" for a in args) and not any(k == "**" for k, _ in kwargs)
+        return self._apply(f, args, kwargs, simple, n, frame, st)
+
+    def _apply(self, f: Term, args, kwargs, simple: bool, n: ast.Call, frame: Frame, st: _State) -> Term:
+        # a callable selected by a condition (caster = A if c else B): the call is the selection of the two calls
+        if f[0] == "ifexp" and simple and any(x[0] == "lam" for x in _ifexp_leaves(f)):
+            a = self._apply(f[2], args, kwargs, simple, n, frame, st.with_cond(f[1], True))
+            b = self._apply(f[3], args, kwargs, simple, n, frame, st.with_cond(f[1], False))
+            return mk_ifexp(f[1], a, b)
         # closures / lambdas
         if f[0] == "lam" and simple and self._call_depth < self.MAX_DEPTH:
             c = self.closures[f[1]]
@@ -1170,6 +1178,10 @@ def _const_expr(d: ast.AST) -> Term:
     if isinstance(d, ast.Tuple):
         return ("tuple", tuple(_const_expr(e) for e in d.elts))
     return ("name", "<default:" + ast.unparse(d) + ">")
+
+
+def _ifexp_leaves(t: Term) -> List[Term]:
+    return _ifexp_leaves(t[2]) + _ifexp_leaves(t[3]) if t[0] == "ifexp" else [t]
 
 
 def _table_term(d: ast.AST) -> Optional[Term]:
